@@ -1,5 +1,7 @@
 import AsmjitVerif.Model.Format
+import AsmjitVerif.Model.FormatExplain
 import AsmjitVerif.Spec.FormatText
+import AsmjitVerif.Spec.FormatExplain
 import Driver.Common
 open AsmjitVerif.Format
 open AsmjitVerif.FormatText
@@ -182,12 +184,12 @@ def step (st : St) (line : String) : St × String :=
     | none => bad
   | "inst" :: id :: opts :: extra :: ops =>
     match id.toNat?, parseHex? opts, parseExtra extra, ops.mapM parseOperand with
-    | some id, some opts, some extra, some ops => (st, "=" ++ escape (formatInstruction st.flags st.env id opts extra ops))
+    | some id, some opts, some extra, some ops => (st, "=" ++ escape (formatInstructionX st.flags st.env id opts extra ops))
     | _, _, _, _ => bad
   | "logline" :: id :: opts :: extra :: comment :: bytes :: rel :: imm :: ops =>
     match id.toNat?, parseHex? opts, parseExtra extra, optComment comment, hexToNats? bytes, rel.toNat?, imm.toNat?, ops.mapM parseOperand with
     | some id, some opts, some extra, some comment, some bytes, some rel, some imm, some ops =>
-      (st, "T " ++ escape (logInstructionEmitted st.flags st.env st.indent st.pad0 st.pad1 id opts extra ops bytes rel imm comment))
+      (st, "T " ++ escape (logInstructionEmittedX st.flags st.env st.indent st.pad0 st.pad1 id opts extra ops bytes rel imm comment))
     | _, _, _, _, _, _, _, _ => bad
   | _ =>
   -- monitor lines
@@ -208,6 +210,11 @@ def step (st : St) (line : String) : St × String :=
       | some id, some opts, some extra, some ops =>
         (st, verdict (monInstruction st.env st.flags id opts extra ops [] text) "instruction-text-does-not-denote-the-instruction")
       | _, _, _, _ => bad
+    | ["mon_expl", id, vec, u8] =>
+      match id.toNat?, vec.toNat?, u8.toNat? with
+      | some id, some vec, some u8 =>
+        (st, verdict (monExplain (AsmjitVerif.Gen.FormatTabs.x86InstNames.getD id "") vec u8 text) "immediate-annotation-does-not-denote-the-immediate")
+      | _, _, _ => bad
     | "mon_node" :: pos :: rest =>
       match pos.toNat?, parseNode rest with
       | some pos, some (n, inl) => (st, verdict (monNode st.env st.flags n inl text pos) "node-text-does-not-denote-the-node")
